@@ -37,6 +37,8 @@ enum Op {
     Wake,
     Recv,
     Fire { rk: u64, wait: u64 },
+    /// the loop ends: its future is dropped, the command channel is closed
+    Kill,
 }
 
 fn key_bytes(rk: u64) -> Vec<u64> {
@@ -124,6 +126,7 @@ impl Op {
                 o.extend([4, *rk, *wait]);
                 o.extend(key_bytes(*rk));
             }
+            Op::Kill => o.push(5),
         }
     }
 }
@@ -205,6 +208,7 @@ fn decode(c: &[u64]) -> Option<(u64, Vec<Op>)> {
                 skip(&mut r)?;
                 op
             }
+            5 => Op::Kill,
             _ => return None,
         };
         ops.push(op);
@@ -228,6 +232,7 @@ struct HSys {
     provided: Vec<u64>,
     /// commands in the channel, as far as the harness can tell from the results
     queued: u64,
+    dead: bool,
 }
 
 fn peer_of(p: u64) -> PeerId {
@@ -294,6 +299,7 @@ impl HSys {
             timers: Vec::new(),
             provided: Vec::new(),
             queued: 0,
+            dead: false,
         };
         s.poll_loop();
         s
@@ -301,6 +307,9 @@ impl HSys {
 
     /// Polls the loop until it waits; returns the number of `select!` iterations it went through.
     fn poll_loop(&mut self) -> u64 {
+        if self.dead {
+            return 0;
+        }
         let waker = futures::task::noop_waker();
         let mut cx = Context::from_waker(&waker);
         for _ in 0..3 {
@@ -571,7 +580,7 @@ async fn apply(s: &mut HSys, op: &mut Op, trace: &mut Vec<u64>) -> Option<()> {
             s.recv(trace)
         }
         Op::Fire { rk, wait } => {
-            if s.parked.is_some() || s.queued > 0 {
+            if s.parked.is_some() || s.queued > 0 || s.dead {
                 return None;
             }
             let (i, (key, deadline)) = s.timers.iter().enumerate().min_by_key(|(_, t)| t.1).map(|(i, t)| (i, *t))?;
@@ -583,6 +592,15 @@ async fn apply(s: &mut HSys, op: &mut Op, trace: &mut Vec<u64>) -> Option<()> {
             *wait = (at - s.now_ms) / TICK_MS;
             s.fire(*wait, trace).await?;
             s.timers.push((*rk, s.now_ms + REFRESH_MS));
+        }
+        Op::Kill => {
+            if s.parked.is_some() || s.dead {
+                return None;
+            }
+            s.fut = Box::pin(async {});
+            s.dead = true;
+            s.timers.clear();
+            trace.push(7);
         }
     }
     Some(())
@@ -655,6 +673,7 @@ pub fn generate(seed: u64) -> Option<(Vec<u64>, Vec<u64>)> {
                 11..=13 => Op::Poll,
                 14 | 15 => Op::Wake,
                 16 | 17 => Op::Recv,
+                18 if rng.chance(12) => Op::Kill,
                 _ => match s.timers.iter().min_by_key(|t| t.1) {
                     Some(t) => Op::Fire { rk: t.0, wait: 0 },
                     None => Op::Poll,
@@ -729,6 +748,24 @@ pub fn witnesses() -> Vec<(&'static str, Vec<u64>)> {
                     Op::Recv,
                     Op::Recv,
                     Op::Recv,
+                    Op::Poll,
+                    Op::Wake,
+                    Op::Recv,
+                ],
+            ),
+        ),
+        (
+            // after the loop has ended the try_ methods fail; the async ones still draw and return an id
+            // (the error of the closed channel is dropped): no operation is started, nothing is reported
+            "handle_calls_after_loop_ended",
+            encode_case(
+                2,
+                &[
+                    Op::Call { tr: true, b: find(1) },
+                    Op::Kill,
+                    Op::Call { tr: true, b: find(2) },
+                    Op::Call { tr: false, b: find(3) },
+                    Op::Call { tr: false, b: Body::StoreRecord { rk: 5, len: 1, publ: 0, expc: 0 } },
                     Op::Poll,
                     Op::Wake,
                     Op::Recv,
